@@ -76,11 +76,41 @@ def grid_space():
         for ta in '%&!#':
             for a in operands(ta):
                 yield (op, ta, None, a, None)
+    # builtin calls whose arguments are all constants (a compiler may evaluate them itself: value and type must be those of
+    # the run-time library)
+    for e in builtin_const_calls():
+        yield ('call', e.split('(')[0], None, e, None)
+
+
+BC_NUMS = ['0', '1', '-1', '2.5', '-2.5', '3.5', '-3.5', '32767', '-32768', '32768', '2147483647', '0.1', '0.1#', '9.9000007E+09',
+           '-9.9000007E+09', '1E+10', '1.5!', '1D-300', '123456789.123456789#', '16777217', '.000977', '1E-3', '8.6000003E+09',
+           '0.5', '-0.5', '1.5#', '70000', '65']
+BC_VALTXT = ['"0.1234567890123456"', '" 0.1234567890123456"', '"1D5"', '"1e5"', '"12abc"', '"&H10"', '""', '" 42 "', '"1.5"', '"-7"',
+             '"9.9000007E+09"', '"123456789012"', '"1E-3"', '".1"', '"32768"', '"2147483648"', '"1e40"', '"abc"']
+BC_STRS = ['""', '"a"', '"Hello World"', '"  x  "', '"\u00e9"']
+
+
+def builtin_const_calls():
+    out = []
+    for v in BC_NUMS:
+        for f in ('ABS', 'CINT', 'CLNG', 'INT', 'STR$', 'LEN(STR$', 'VAL(STR$'):
+            out.append(f'{f}({v})' + (')' if '(' in f else ''))
+    for v in ('0', '1', '65', '97', '255', '256', '-1', '65.5', '32'):
+        out += [f'CHR$({v})', f'ASC(CHR$({v}))', f'LEN(SPACE$({v}))', f'STRING$({v}, 66)', f'STRING$(2, {v})', f'LEFT$("hello", {v})',
+                f'RIGHT$("hello", {v})', f'MID$("hello", {v})', f'MID$("hello", 2, {v})', f'INSTR({v}, "hello", "l")']
+    for t in BC_VALTXT:
+        out += [f'VAL({t})', f'LEN({t})', f'VAL({t}) + 0', f'CINT(VAL({t}))']
+    for t in BC_STRS:
+        out += [f'LEN({t})', f'ASC({t})', f'UCASE$({t})', f'LCASE$({t})', f'LTRIM$({t})', f'RTRIM$({t})', f'LEN(LTRIM$({t}))',
+                f'INSTR({t}, "l")', f'INSTR("Hello", {t})', f'STRING$(2, {t})', f'{t} + UCASE$({t})', f'LEFT$({t}, 3) + "|"']
+    return out
 
 
 def grid_text(g, wrap):
     op, ta, tb, a, b = g
-    if b is None:
+    if op == 'call':
+        e = a
+    elif b is None:
         e = f'{op} {a}'
     else:
         e = f'{a} {op} {b}'
@@ -423,6 +453,7 @@ def gen_cases(tier, seed):
             cells.setdefault((g[0], g[1], g[2]), []).append(g)
         chosen = [r.choice(v) for v in cells.values()]
         chosen += r.sample(space, 2200)
+        chosen += [g for g in space if g[0] == 'call'][seed % 2::2]      # a rotating half of the constant-argument calls
         items = [(g, 'print') for g in chosen]
         items += [(g, w) for g in r.sample(space, 300) for w in ('const',)]
         items += [(g, 'nested') for g in r.sample(space, 200)]
